@@ -275,3 +275,704 @@ Lemma dprog_disc ops : disc (false, false) (dprog ops) = true.
 Proof.
   induction ops as [|o ops IH]; [reflexivity|]. unfold dprog in *. cbn [map concat]. apply disc_dop. exact IH.
 Qed.
+
+(* ---------------------------------------------------------------------------------------------------------------
+   error records: isolation
+   --------------------------------------------------------------------------------------------------------------- *)
+Definition err_inv (st : state) : Prop :=
+  (forall i r, nth_error (s_erecs st) i = Some r -> forall it, In it (snd r) -> fst it = fst r) /\
+  (forall t ts p, nth_error (s_thr st) t = Some ts -> t_reg ts = RPtr (Some p) ->
+     p_gen p <= s_egen st /\
+     (p_gen p = s_egen st -> exists r, nth_error (s_erecs st) (p_idx p) = Some r /\ fst r = t)).
+
+Definition err_good (t : tid) (e : event) : Prop :=
+  forall items, e = EvErrGot (Some items) -> forall it, In it items -> fst it = t.
+
+Lemma find_rec_spec recs t : forall k i,
+  find_rec recs t k = Some i -> (k <= i)%nat /\ exists r, nth_error recs (i - k) = Some r /\ fst r = t.
+Proof.
+  induction recs as [|r recs IH]; intros k i H; cbn in H; [discriminate|].
+  destruct (Nat.eqb (fst r) t) eqn:E.
+  - inversion H; subst. split; [lia|]. rewrite Nat.sub_diag. exists r. split; [reflexivity|]. apply Nat.eqb_eq; exact E.
+  - destruct (IH _ _ H) as [Hle [r' [Hn Hf]]]. split; [lia|]. exists r'. split; [|exact Hf].
+    replace (i - k)%nat with (S (i - S k)) by lia. exact Hn.
+Qed.
+
+Lemma err_inv_step st st1 t ts ts' :
+  err_inv st -> nth_error (s_thr st) t = Some ts -> s_thr st1 = s_thr st -> s_erecs st1 = s_erecs st ->
+  s_egen st1 = s_egen st -> (t_reg ts' = t_reg ts \/ forall p, t_reg ts' <> RPtr (Some p)) ->
+  err_inv (set_thr st1 (lset (s_thr st1) t ts')).
+Proof.
+  intros [Ha Hb] Ht Hthr Hrec Hgen Hreg. split; cbn [s_erecs s_egen s_thr set_thr].
+  - rewrite Hrec. exact Ha.
+  - intros u tsu p Hu Hp. rewrite Hthr in Hu. rewrite Hrec, Hgen. destruct (Nat.eq_dec t u) as [->|Hne].
+    + rewrite (lset_same _ _ _ _ Ht) in Hu. inversion Hu; subst tsu. destruct Hreg as [Hreg|Hreg].
+      * apply (Hb u ts p Ht). rewrite <- Hreg. exact Hp.
+      * exfalso. apply (Hreg p). exact Hp.
+    + rewrite lset_other in Hu by exact Hne. apply (Hb u tsu p Hu Hp).
+Qed.
+
+Lemma s_erecs_set_holder st m h : s_erecs (set_holder st m h) = s_erecs st.
+Proof. destruct m; reflexivity. Qed.
+Lemma s_egen_set_holder st m h : s_egen (set_holder st m h) = s_egen st.
+Proof. destruct m; reflexivity. Qed.
+
+Ltac estep :=
+  match goal with
+  | Hinv : err_inv ?st, Ht : nth_error (s_thr ?st) _ = Some ?ts |- _ =>
+      apply err_inv_step with (st := st) (ts := ts);
+      [exact Hinv | exact Ht | try reflexivity; try apply s_thr_set_holder | try reflexivity; try apply s_erecs_set_holder
+       | try reflexivity; try apply s_egen_set_holder
+       | first [left; reflexivity | left; cbn [t_reg]; symmetry; assumption | right; intros ? ?; discriminate]]
+  end.
+
+Ltac eevs :=
+  let ev := fresh "ev" in let Hev := fresh "Hev" in let items := fresh "items" in let Hi := fresh "Hi" in
+  intros ev Hev; cbn [In snd] in Hev;
+  repeat (destruct Hev as [<-|Hev]; [intros items Hi; try discriminate|]); try contradiction.
+
+Lemma lset_nth {A} (l : list A) i j a x :
+  nth_error (lset l i a) j = Some x -> (i = j /\ x = a) \/ nth_error l j = Some x.
+Proof.
+  destruct (Nat.eq_dec i j) as [->|Hne].
+  - intro H. destruct (nth_error l j) as [y|] eqn:E.
+    + rewrite (lset_same _ _ _ _ E) in H. inversion H. left; auto.
+    + rewrite (lset_none _ _ _ E) in H. rewrite E in H. discriminate.
+  - rewrite lset_other by exact Hne. auto.
+Qed.
+
+Lemma err_inv_step2 st t ts ts' :
+  err_inv st -> nth_error (s_thr st) t = Some ts ->
+  (forall p, t_reg ts' = RPtr (Some p) ->
+     p_gen p <= s_egen st /\
+     (p_gen p = s_egen st -> exists r, nth_error (s_erecs st) (p_idx p) = Some r /\ fst r = t)) ->
+  err_inv (set_thr st (lset (s_thr st) t ts')).
+Proof.
+  intros [Ha Hb] Ht Hreg. split; cbn [s_erecs s_egen s_thr set_thr]; [exact Ha|].
+  intros u tsu p Hu Hp. destruct (Nat.eq_dec t u) as [->|Hne].
+  - rewrite (lset_same _ _ _ _ Ht) in Hu. inversion Hu; subst tsu. apply Hreg; exact Hp.
+  - rewrite lset_other in Hu by exact Hne. apply (Hb u tsu p Hu Hp).
+Qed.
+
+Lemma err_inv_recmod st t ts ts' i r items' :
+  err_inv st -> nth_error (s_thr st) t = Some ts -> t_reg ts' = t_reg ts ->
+  nth_error (s_erecs st) i = Some r -> (forall it, In it items' -> fst it = fst r) ->
+  err_inv (set_thr (set_err st (s_egen st) (s_esize st) (s_emode st) (lset (s_erecs st) i (fst r, items')))
+                   (lset (s_thr st) t ts')).
+Proof.
+  intros [Ha Hb] Ht Hreg Hi Hit. split; cbn [s_erecs s_egen s_thr set_thr set_err].
+  - intros j r' Hj it Hin. apply lset_nth in Hj. destruct Hj as [[-> ->]|Hj].
+    + cbn [fst snd] in *. apply Hit; exact Hin.
+    + apply (Ha j r' Hj it Hin).
+  - intros u tsu p Hu Hp.
+    assert (Hold : exists tso, nth_error (s_thr st) u = Some tso /\ t_reg tso = RPtr (Some p)).
+    { destruct (Nat.eq_dec t u) as [->|Hne].
+      - rewrite (lset_same _ _ _ _ Ht) in Hu. inversion Hu; subst tsu. exists ts. split; [exact Ht|]. rewrite <- Hreg; exact Hp.
+      - rewrite lset_other in Hu by exact Hne. exists tsu. auto. }
+    destruct Hold as [tso [Hu' Hp']]. destruct (Hb u tso p Hu' Hp') as [Hle Hex]. split; [exact Hle|].
+    intro Hg. destruct (Hex Hg) as [r0 [Hr0 Hf0]].
+    destruct (Nat.eq_dec i (p_idx p)) as [Heq|Hne].
+    + subst i. rewrite Hi in Hr0. inversion Hr0; subst r0. exists (fst r, items'). split; [|exact Hf0].
+      apply (lset_same _ _ _ _ Hi).
+    + exists r0. split; [|exact Hf0]. rewrite lset_other by exact Hne. exact Hr0.
+Qed.
+
+Lemma err_resize_gen g sz md u :
+  fst (fst (err_resize g sz md u)) = g \/ fst (fst (err_resize g sz md u)) = g + 1.
+Proof.
+  unfold err_resize. destruct ((if (md =? 1) && (50 <=? u * 100 / sz) then 2 else md) =? 2); cbn;
+    destruct (75 <=? u * 100 / sz); cbn; auto.
+Qed.
+
+Lemma exec_err st t :
+  err_inv st -> err_inv (fst (exec st t)) /\ forall e, In e (snd (exec st t)) -> err_good t e.
+Proof.
+  intro Hinv. unfold exec. destruct (nth_error (s_thr st) t) as [ts|] eqn:Ht; [|split; [exact Hinv|intros e []]].
+  destruct (t_rem ts) as [|stp rest] eqn:Hrem; [split; [exact Hinv|intros e []]|].
+  destruct stp; cbn [exec_step].
+  - destruct (holder st m); cbn [fst snd]; (split; [try exact Hinv; try estep|eevs]).
+  - destruct (holds st t m); cbn [fst snd]; (split; [estep|eevs]).
+  - cbn [fst snd]. split; [estep|eevs].
+  - destruct (negb (s_dict st s =? 0)); cbn [fst snd]; (split; [estep|eevs]).
+  - destruct (flag (t_reg ts)); cbn [fst snd]; (split; [estep|eevs]).
+  - cbn [fst snd]. split; [estep|eevs].
+  - destruct (flag (t_reg ts)); cbn [fst snd]; (split; [estep|eevs]).
+  - (* ErrFind *)
+    cbn [fst snd]. split; [|eevs]. apply err_inv_step2 with (ts := ts); [exact Hinv|exact Ht|].
+    cbn [t_reg]. intros p Hp. destruct (find_rec (s_erecs st) t 0) as [i|] eqn:Hf; [|discriminate].
+    inversion Hp; subst p. cbn [p_gen p_idx]. split; [lia|]. intros _.
+    destruct (find_rec_spec _ _ _ _ Hf) as [_ [r [Hn Hr]]]. rewrite Nat.sub_0_r in Hn. exists r; auto.
+  - (* ErrInsert *)
+    destruct (find_rec (s_erecs st) t 0) as [i|] eqn:Hf.
+    + cbn [fst snd]. split; [estep|eevs].
+    + pose proof (err_resize_gen (s_egen st) (s_esize st) (s_emode st) (N.of_nat (length (s_erecs st ++ [(t, [])])))) as Hg.
+      destruct (err_resize (s_egen st) (s_esize st) (s_emode st) (N.of_nat (length (s_erecs st ++ [(t, [])])))) as [[g sz] md].
+      cbn [fst snd] in *. split; [|eevs]. destruct Hinv as [Ha Hb].
+      split; cbn [s_erecs s_egen s_thr set_thr set_err].
+      * intros j r Hj it Hin. destruct (Nat.lt_ge_cases j (length (s_erecs st))) as [Hlt|Hge].
+        -- rewrite nth_error_app1 in Hj by exact Hlt. apply (Ha j r Hj it Hin).
+        -- rewrite nth_error_app2 in Hj by exact Hge. destruct (j - length (s_erecs st))%nat as [|k]; cbn in Hj.
+           ++ inversion Hj; subst r. destruct Hin.
+           ++ destruct k; discriminate.
+      * intros u tsu p Hu Hp. destruct (Nat.eq_dec t u) as [->|Hne].
+        -- rewrite (lset_same _ _ _ _ Ht) in Hu. inversion Hu; subst tsu. cbn [t_reg] in Hp. inversion Hp; subst p.
+           cbn [p_gen p_idx]. split; [lia|]. intros _. exists (u, []). split; [|reflexivity].
+           rewrite nth_error_app2 by lia. rewrite Nat.sub_diag. reflexivity.
+        -- rewrite lset_other in Hu by exact Hne. destruct (Hb u tsu p Hu Hp) as [Hle Hex]. split; [lia|].
+           intro Hpg. assert (Hgg : p_gen p = s_egen st) by lia. destruct (Hex Hgg) as [r [Hr Hfr]].
+           exists r. split; [|exact Hfr]. rewrite nth_error_app1; [exact Hr|]. apply nth_error_Some. congruence.
+  - (* ErrWrite *)
+    destruct (t_reg ts) as [|b|[p|]|b] eqn:Hreg; try (cbn [fst snd]; split; [estep|eevs]).
+    destruct (p_gen p =? s_egen st) eqn:Hg; [|cbn [fst snd]; split; [estep|eevs]].
+    destruct (nth_error (s_erecs st) (p_idx p)) as [r|] eqn:Hr; [|cbn [fst snd]; split; [estep|eevs]].
+    cbn [fst snd]. split; [|eevs].
+    refine (err_inv_recmod st t ts _ (p_idx p) r _ Hinv Ht _ Hr _); [cbn; symmetry; exact Hreg|].
+    intros it Hin. apply in_app_or in Hin. destruct Hin as [Hin|[<-|[]]].
+    + destruct Hinv as [Ha _]. apply (Ha _ _ Hr it Hin).
+    + destruct Hinv as [_ Hb]. apply N.eqb_eq in Hg. destruct (Hb t ts p Ht Hreg) as [_ Hex].
+      destruct (Hex Hg) as [r0 [Hr0 Hf0]]. rewrite Hr in Hr0. inversion Hr0; subst r0. cbn. symmetry; exact Hf0.
+  - (* ErrRead *)
+    destruct (t_reg ts) as [|b|[p|]|b] eqn:Hreg; try (cbn [fst snd]; split; [estep|eevs]).
+    destruct (p_gen p =? s_egen st) eqn:Hg; [|cbn [fst snd]; split; [estep|eevs]].
+    destruct (nth_error (s_erecs st) (p_idx p)) as [r|] eqn:Hr; [|cbn [fst snd]; split; [estep|eevs]].
+    cbn [fst snd]. split; [estep|eevs]. inversion Hi; subst items. intros it Hin.
+    destruct Hinv as [Ha Hb]. apply N.eqb_eq in Hg. destruct (Hb t ts p Ht Hreg) as [_ Hex].
+    destruct (Hex Hg) as [r0 [Hr0 Hf0]]. rewrite Hr in Hr0. inversion Hr0; subst r0.
+    rewrite (Ha _ _ Hr it Hin). exact Hf0.
+  - (* ErrClear *)
+    destruct (t_reg ts) as [|b|[p|]|b] eqn:Hreg; try (cbn [fst snd]; split; [estep|eevs]).
+    destruct (p_gen p =? s_egen st) eqn:Hg; [|cbn [fst snd]; split; [estep|eevs]].
+    destruct (nth_error (s_erecs st) (p_idx p)) as [r|] eqn:Hr; [|cbn [fst snd]; split; [estep|eevs]].
+    cbn [fst snd]. split; [|eevs].
+    refine (err_inv_recmod st t ts _ (p_idx p) r _ Hinv Ht _ Hr _); [cbn; symmetry; exact Hreg|]. intros it [].
+  - cbn [fst snd]. split; [estep|eevs].
+  - cbn [fst snd]. split; [estep|eevs].
+  - cbn [fst snd]. split; [estep|eevs].
+  - cbn [fst snd]. split; [estep|eevs].
+  - cbn [fst snd]. split; [estep|eevs].
+  - cbn [fst snd]. split; [estep|eevs].
+  - cbn [fst snd]. split; [estep|eevs].
+  - cbn [fst snd]. split; [estep|eevs].
+Qed.
+
+Lemma init_thread d0 progs t ts :
+  nth_error (s_thr (init d0 progs)) t = Some ts ->
+  exists p, nth_error progs t = Some p /\ ts = mkT p RNone 0.
+Proof.
+  cbn [init s_thr]. rewrite nth_error_map. destruct (nth_error progs t) as [p|]; cbn; [|discriminate].
+  intro H. inversion H. exists p. auto.
+Qed.
+
+Lemma err_inv_init d0 progs : err_inv (init d0 progs).
+Proof.
+  split.
+  - intros i r H. cbn in H. destruct i; discriminate.
+  - intros t ts p Ht Hp. destruct (init_thread _ _ _ _ Ht) as [q [_ ->]]. discriminate.
+Qed.
+
+Theorem err_records_isolated d0 progs sched :
+  forall t items, In (t, EvErrGot (Some items)) (snd (run sched (init d0 progs))) ->
+  forall it, In it items -> fst it = t.
+Proof.
+  destruct (run_invariant err_inv err_good exec_err sched (init d0 progs) (err_inv_init d0 progs)) as [_ HG].
+  intros t items Hin. apply (HG t _ Hin items eq_refl).
+Qed.
+
+(* ---------------------------------------------------------------------------------------------------------------
+   private operations
+   --------------------------------------------------------------------------------------------------------------- *)
+Definition priv_inv (R : tid -> N) (st : state) : Prop :=
+  forall t ts, nth_error (s_thr st) t = Some ts ->
+    privs_unskipped (t_rem ts) = true /\ priv_result (t_rem ts) (t_local ts) = R t.
+
+Lemma privs_unskipped_tl s p : privs_unskipped (s :: p) = true -> privs_unskipped p = true.
+Proof. destruct s; cbn; auto. intro H. apply andb_true_iff in H. tauto. Qed.
+
+Lemma privs_unskipped_skipn n : forall p, privs_unskipped p = true -> privs_unskipped (skipn n p) = true.
+Proof.
+  induction n as [|n IH]; intros p H; [exact H|]. destruct p as [|s p]; [exact H|]. cbn [skipn].
+  apply IH. apply (privs_unskipped_tl _ _ H).
+Qed.
+
+Lemma priv_result_skipn n : forall p x,
+  existsb is_priv (firstn n p) = false -> priv_result (skipn n p) x = priv_result p x.
+Proof.
+  induction n as [|n IH]; intros p x H; [reflexivity|]. destruct p as [|s p]; [reflexivity|].
+  cbn [firstn existsb skipn] in *. apply orb_false_iff in H. destruct H as [H1 H2].
+  rewrite (IH p x H2). destruct s; cbn in H1 |- *; try reflexivity. discriminate.
+Qed.
+
+Lemma priv_inv_step R st st1 t ts ts' :
+  priv_inv R st -> nth_error (s_thr st) t = Some ts -> s_thr st1 = s_thr st ->
+  privs_unskipped (t_rem ts') = true ->
+  priv_result (t_rem ts') (t_local ts') = priv_result (t_rem ts) (t_local ts) ->
+  priv_inv R (set_thr st1 (lset (s_thr st1) t ts')).
+Proof.
+  intros Hinv Ht Hthr Hu Hr u tsu Hnu. cbn [s_thr set_thr] in Hnu. rewrite Hthr in Hnu.
+  destruct (Nat.eq_dec t u) as [->|Hne].
+  - rewrite (lset_same _ _ _ _ Ht) in Hnu. inversion Hnu; subst tsu. split; [exact Hu|]. rewrite Hr. apply (Hinv u ts Ht).
+  - rewrite lset_other in Hnu by exact Hne. apply (Hinv u tsu Hnu).
+Qed.
+
+Lemma exec_priv R st t : priv_inv R st -> priv_inv R (fst (exec st t)).
+Proof.
+  intro Hinv. unfold exec. destruct (nth_error (s_thr st) t) as [ts|] eqn:Ht; [|exact Hinv].
+  destruct (t_rem ts) as [|stp rest] eqn:Hrem; [exact Hinv|].
+  destruct (Hinv t ts Ht) as [Hu _]. rewrite Hrem in Hu.
+  assert (Hu' := privs_unskipped_tl _ _ Hu).
+  assert (Hgen : forall st1 r, s_thr st1 = s_thr st -> is_priv stp = false -> (forall b n, stp <> SkipIf b n) ->
+            priv_inv R (set_thr st1 (lset (s_thr st1) t (mkT rest r (t_local ts))))).
+  { intros st1 r Hthr Hnp Hns. apply priv_inv_step with (st := st) (ts := ts); auto.
+    cbn [t_rem t_local]. rewrite Hrem. destruct stp; cbn in Hnp |- *; try reflexivity; discriminate. }
+  destruct stp; cbn [exec_step];
+    lazymatch goal with
+    | |- context [skipn] => idtac
+    | |- context [priv_fun] => idtac
+    | _ =>
+      try (destruct (holder st m)); try (destruct (holds st t m));
+      try (destruct (negb (s_dict st s =? 0))); try (destruct (flag (t_reg ts)));
+      try (destruct (find_rec (s_erecs st) t 0));
+      try (destruct (err_resize (s_egen st) (s_esize st) (s_emode st) (N.of_nat (length (s_erecs st ++ [(t, [])])))) as [[g sz] md]);
+      try (destruct (t_reg ts) as [|b0|[p|]|b0]); try (destruct (p_gen p =? s_egen st));
+      try (destruct (nth_error (s_erecs st) (p_idx p)));
+      cbn [fst snd]; try exact Hinv;
+      try (apply Hgen; [try reflexivity; try apply s_thr_set_holder|reflexivity|intros ? ? ?; discriminate])
+    end.
+  - (* SkipIf *)
+    cbn [fst snd]. apply priv_inv_step with (st := st) (ts := ts); auto; cbn [t_rem t_local].
+    + match goal with |- context [if ?c then skipn _ _ else _] => destruct c end; [apply privs_unskipped_skipn|]; exact Hu'.
+    + rewrite Hrem. cbn [priv_result]. cbn [privs_unskipped] in Hu. apply andb_true_iff in Hu. destruct Hu as [Hu1 _].
+      match goal with |- context [if ?c then skipn _ _ else _] => destruct c end; [|reflexivity]. apply priv_result_skipn.
+      destruct (existsb is_priv (firstn n rest)); [discriminate|reflexivity].
+  - (* Priv *)
+    cbn [fst snd]. apply priv_inv_step with (st := st) (ts := ts); auto. cbn [t_rem t_local]. rewrite Hrem. reflexivity.
+Qed.
+
+Lemma thread_rem_local st t ts : nth_error (s_thr st) t = Some ts -> thread_rem st t = t_rem ts /\ thread_local st t = t_local ts.
+Proof. intro H. unfold thread_rem, thread_local. rewrite H. auto. Qed.
+
+Theorem private_ops_schedule_independent d0 progs sched t p :
+  (forall q, In q progs -> privs_unskipped q = true) -> nth_error progs t = Some p ->
+  priv_result (thread_rem (fst (run sched (init d0 progs))) t) (thread_local (fst (run sched (init d0 progs))) t)
+  = priv_result p 0.
+Proof.
+  intros Hall Hp.
+  pose (R := fun u => match nth_error progs u with Some q => priv_result q 0 | None => 0 end).
+  assert (H0 : priv_inv R (init d0 progs)).
+  { intros u tsu Hu. destruct (init_thread _ _ _ _ Hu) as [q [Hq ->]]. cbn [t_rem t_local]. split.
+    - apply Hall. eapply nth_error_In; exact Hq.
+    - unfold R. rewrite Hq. reflexivity. }
+  destruct (run_invariant (priv_inv R) (fun _ _ => True) (fun st u HI => conj (exec_priv R st u HI) (fun _ _ => I))
+              sched (init d0 progs) H0) as [HI _].
+  assert (Hlen : exists ts, nth_error (s_thr (fst (run sched (init d0 progs)))) t = Some ts).
+  { assert (Hl : forall sch st, length (s_thr (fst (run sch st))) = length (s_thr st)).
+    { induction sch as [|u sch IH]; intro st; [reflexivity|]. cbn [run fst]. rewrite IH.
+      unfold exec. destruct (nth_error (s_thr st) u) as [tsu|]; [|reflexivity].
+      destruct (t_rem tsu) as [|stp rest]; [reflexivity|].
+      destruct stp; cbn [exec_step];
+        try (destruct (holder st m)); try (destruct (holds st u m));
+        try (destruct (negb (s_dict st s =? 0))); try (destruct (flag (t_reg tsu)));
+        try (destruct (find_rec (s_erecs st) u 0));
+        try (destruct (err_resize (s_egen st) (s_esize st) (s_emode st) (N.of_nat (length (s_erecs st ++ [(u, [])])))) as [[g sz] md]);
+        try (destruct (t_reg tsu) as [|b0|[p0|]|b0]); try (destruct (p_gen p0 =? s_egen st));
+        try (destruct (nth_error (s_erecs st) (p_idx p0)));
+        cbn [fst snd s_thr set_thr]; try reflexivity; try apply lset_length;
+        try (rewrite lset_length; destruct m; reflexivity). }
+    destruct (nth_error (s_thr (fst (run sched (init d0 progs)))) t) as [ts|] eqn:E; [exists ts; reflexivity|].
+    apply nth_error_None in E. rewrite Hl in E. cbn [init s_thr] in E. rewrite map_length in E.
+    assert (Hlt : (t < length progs)%nat) by (apply nth_error_Some; congruence). lia. }
+  destruct Hlen as [ts Hts]. destruct (thread_rem_local _ _ _ Hts) as [-> ->].
+  destruct (HI t ts Hts) as [_ Hr]. rewrite Hr. unfold R. rewrite Hp. reflexivity.
+Qed.
+
+Lemma privs_api o q : privs_unskipped q = true -> privs_unskipped (p_api o ++ q) = true.
+Proof. intro H. destruct o; cbn; rewrite ?H; reflexivity. Qed.
+
+Lemma compile_privs_unskipped ops : privs_unskipped (compile ops) = true.
+Proof.
+  induction ops as [|o ops IH]; [reflexivity|]. unfold compile in *. cbn [map concat]. apply privs_api. exact IH.
+Qed.
+
+(* ---------------------------------------------------------------------------------------------------------------
+   dictionary: lock-bracketed calls are atomic
+   --------------------------------------------------------------------------------------------------------------- *)
+Inductive dphase : list step -> Prop :=
+| Ph0 ops : dphase (dprog ops)
+| PhI1 s ops : dphase (DictInsFind s :: DictInsBump s :: Release LDict :: dprog ops)
+| PhI2 s ops : dphase (DictInsBump s :: Release LDict :: dprog ops)
+| PhR1 s ops : dphase (DictRemFind s :: DictRemDec s :: Release LDict :: dprog ops)
+| PhR2 s ops : dphase (DictRemDec s :: Release LDict :: dprog ops)
+| Ph3 ops : dphase (Release LDict :: dprog ops).
+
+Definition in_cs (p : list step) : bool :=
+  match p with [] => false | Acquire _ :: _ => false | _ => true end.
+
+Definition P1 (st : state) : Prop :=
+  forall t ts, nth_error (s_thr st) t = Some ts ->
+    dphase (t_rem ts) /\ (in_cs (t_rem ts) = true <-> s_ldict st = Some t).
+
+Definition dict_rel (st : state) (a : dictT) : Prop :=
+  match s_ldict st with
+  | None => s_dict st = a
+  | Some t =>
+      match nth_error (s_thr st) t with
+      | Some ts =>
+          match t_rem ts with
+          | DictInsBump s :: _ =>
+              s_dict st = (if a s =? 0 then dupd a s 1 else a) /\ t_reg ts = RFound (negb (a s =? 0))
+          | DictRemDec s :: _ => s_dict st = a /\ t_reg ts = RFound (negb (a s =? 0))
+          | _ => s_dict st = a
+          end
+      | None => s_dict st = a
+      end
+  end.
+
+Definition dinv (st : state) (a : dictT) : Prop := P1 st /\ dict_rel st a.
+
+Lemma dprog_cons_ins s ops :
+  dprog (DIns s :: ops) = Acquire LDict :: DictInsFind s :: DictInsBump s :: Release LDict :: dprog ops.
+Proof. reflexivity. Qed.
+Lemma dprog_cons_rem s ops :
+  dprog (DRem s :: ops) = Acquire LDict :: DictRemFind s :: DictRemDec s :: Release LDict :: dprog ops.
+Proof. reflexivity. Qed.
+
+Lemma in_cs_dprog ops : in_cs (dprog ops) = false.
+Proof. destruct ops as [|[s|s] ops]; reflexivity. Qed.
+
+Lemma beq_bytes_refl s : beq_bytes s s = true.
+Proof. apply beq_bytes_eq. reflexivity. Qed.
+
+Lemma P1_step st st1 t ts ts' :
+  P1 st -> nth_error (s_thr st) t = Some ts -> s_thr st1 = s_thr st ->
+  dphase (t_rem ts') -> (in_cs (t_rem ts') = true <-> s_ldict st1 = Some t) ->
+  (s_ldict st1 = s_ldict st \/ (s_ldict st = None /\ s_ldict st1 = Some t) \/ (s_ldict st = Some t /\ s_ldict st1 = None)) ->
+  P1 (set_thr st1 (lset (s_thr st1) t ts')).
+Proof.
+  intros HP Ht Hthr Hph Hcs Hl u tsu Hu. cbn [s_thr set_thr s_ldict] in *. rewrite Hthr in Hu.
+  destruct (Nat.eq_dec t u) as [->|Hne].
+  - rewrite (lset_same _ _ _ _ Ht) in Hu. inversion Hu; subst tsu. split; [exact Hph|]. exact Hcs.
+  - rewrite lset_other in Hu by exact Hne. destruct (HP u tsu Hu) as [Hp Hc]. split; [exact Hp|].
+    assert (Hs : s_ldict (set_thr st1 (lset (s_thr st1) t ts')) = s_ldict st1) by reflexivity.
+    cbn [s_ldict set_thr]. destruct Hl as [Hl|[[Hl1 Hl2]|[Hl1 Hl2]]].
+    + rewrite Hl. exact Hc.
+    + rewrite Hl2. rewrite Hl1 in Hc. split; intro H.
+      * apply Hc in H. discriminate.
+      * inversion H. congruence.
+    + rewrite Hl2. rewrite Hl1 in Hc. split; intro H.
+      * apply Hc in H. inversion H. congruence.
+      * discriminate.
+Qed.
+
+Definition evs_of (t : tid) (l : list event) : list (tid * dop * dret) := dict_events (map (fun e => (t, e)) l).
+
+Ltac relnew Ht :=
+  unfold dict_rel; cbn [s_ldict s_thr s_dict set_thr set_holder set_dict];
+  rewrite ?(lset_same _ _ _ _ Ht); cbn [t_rem t_reg].
+
+Lemma exec_dinv st a t :
+  dinv st a ->
+  dinv (fst (exec st t)) (fst (replay a (evs_of t (snd (exec st t))))) /\
+  snd (replay a (evs_of t (snd (exec st t)))) = true.
+Proof.
+  intros [HP Hrel]. unfold exec.
+  destruct (nth_error (s_thr st) t) as [ts|] eqn:Ht; [|cbn; split; [split; assumption|reflexivity]].
+  destruct (HP t ts Ht) as [Hph Hcs].
+  remember (t_rem ts) as rm eqn:Hrm. destruct Hph as [ops|s ops|s ops|s ops|s ops|ops].
+  - (* between two calls *)
+    destruct ops as [|[s|s] ops].
+    + cbn. split; [split; assumption|reflexivity].
+    + rewrite dprog_cons_ins. cbn [exec_step holder].
+      destruct (s_ldict st) as [x|] eqn:Hl.
+      * cbn. split; [split; assumption|reflexivity].
+      * cbn [fst snd evs_of map dict_events replay]. split; [|reflexivity]. split.
+        -- apply P1_step with (st := st) (ts := ts); [exact HP|exact Ht|reflexivity|cbn [t_rem]; constructor| |right; left; split; [exact Hl|reflexivity]].
+           cbn. split; reflexivity.
+        -- relnew Ht. unfold dict_rel in Hrel. rewrite Hl in Hrel. exact Hrel.
+    + rewrite dprog_cons_rem. cbn [exec_step holder].
+      destruct (s_ldict st) as [x|] eqn:Hl.
+      * cbn. split; [split; assumption|reflexivity].
+      * cbn [fst snd evs_of map dict_events replay]. split; [|reflexivity]. split.
+        -- apply P1_step with (st := st) (ts := ts); [exact HP|exact Ht|reflexivity|cbn [t_rem]; constructor| |right; left; split; [exact Hl|reflexivity]].
+           cbn. split; reflexivity.
+        -- relnew Ht. unfold dict_rel in Hrel. rewrite Hl in Hrel. exact Hrel.
+  - (* DictInsFind *)
+    assert (Hl : s_ldict st = Some t) by (apply Hcs; reflexivity).
+    unfold dict_rel in Hrel. rewrite Hl, Ht, <- Hrm in Hrel.
+    cbn [exec_step]. cbn [fst snd evs_of map dict_events replay]. split; [|reflexivity]. rewrite Hrel.
+    destruct (a s =? 0) eqn:Ha; cbn [negb]; split.
+    + apply P1_step with (st := st) (ts := ts); [exact HP|exact Ht|reflexivity|cbn [t_rem]; constructor| |left; reflexivity].
+      cbn. rewrite Hl. split; reflexivity.
+    + relnew Ht. rewrite Hl. cbn [s_thr set_dict]. rewrite (lset_same _ _ _ _ Ht). cbn [t_rem t_reg]. rewrite Ha. split; reflexivity.
+    + apply P1_step with (st := st) (ts := ts); [exact HP|exact Ht|reflexivity|cbn [t_rem]; constructor| |left; reflexivity].
+      cbn. rewrite Hl. split; reflexivity.
+    + relnew Ht. rewrite Hl. rewrite (lset_same _ _ _ _ Ht). cbn [t_rem t_reg]. rewrite Ha. split; [exact Hrel|reflexivity].
+  - (* DictInsBump *)
+    assert (Hl : s_ldict st = Some t) by (apply Hcs; reflexivity).
+    unfold dict_rel in Hrel. rewrite Hl, Ht, <- Hrm in Hrel. destruct Hrel as [Hd Hreg].
+    cbn [exec_step]. rewrite Hreg. cbn [flag fst snd evs_of map dict_events replay atomic_dop dret_eqb].
+    rewrite beq_bytes_refl. split; [|reflexivity]. rewrite Hd.
+    destruct (a s =? 0) eqn:Ha; cbn [negb]; split.
+    + apply P1_step with (st := st) (ts := ts); [exact HP|exact Ht|reflexivity|cbn [t_rem]; constructor| |left; reflexivity].
+      cbn. rewrite Hl. split; reflexivity.
+    + relnew Ht. rewrite Hl. rewrite (lset_same _ _ _ _ Ht). cbn [t_rem]. rewrite Hd.
+      apply N.eqb_eq in Ha. rewrite Ha. reflexivity.
+    + apply P1_step with (st := st) (ts := ts); [exact HP|exact Ht|reflexivity|cbn [t_rem]; constructor| |left; reflexivity].
+      cbn. rewrite Hl. split; reflexivity.
+    + relnew Ht. rewrite Hl. cbn [s_thr set_dict]. rewrite (lset_same _ _ _ _ Ht). cbn [t_rem]. reflexivity.
+  - (* DictRemFind *)
+    assert (Hl : s_ldict st = Some t) by (apply Hcs; reflexivity).
+    unfold dict_rel in Hrel. rewrite Hl, Ht, <- Hrm in Hrel.
+    cbn [exec_step]. cbn [fst snd evs_of map dict_events replay]. split; [|reflexivity]. split.
+    + apply P1_step with (st := st) (ts := ts); [exact HP|exact Ht|reflexivity|cbn [t_rem]; constructor| |left; reflexivity].
+      cbn. rewrite Hl. split; reflexivity.
+    + relnew Ht. rewrite Hl. rewrite (lset_same _ _ _ _ Ht). cbn [t_rem t_reg]. rewrite Hrel. split; reflexivity.
+  - (* DictRemDec *)
+    assert (Hl : s_ldict st = Some t) by (apply Hcs; reflexivity).
+    unfold dict_rel in Hrel. rewrite Hl, Ht, <- Hrm in Hrel. destruct Hrel as [Hd Hreg].
+    cbn [exec_step]. rewrite Hreg. cbn [flag].
+    destruct (a s =? 0) eqn:Ha; cbn [negb fst snd evs_of map dict_events replay atomic_dop]; rewrite Ha;
+      cbn [fst snd dret_eqb]; rewrite ?N.eqb_refl; (split; [|reflexivity]); split.
+    + apply P1_step with (st := st) (ts := ts); [exact HP|exact Ht|reflexivity|cbn [t_rem]; constructor| |left; reflexivity].
+      cbn. rewrite Hl. split; reflexivity.
+    + relnew Ht. rewrite Hl. rewrite (lset_same _ _ _ _ Ht). cbn [t_rem]. exact Hd.
+    + apply P1_step with (st := st) (ts := ts); [exact HP|exact Ht|reflexivity|cbn [t_rem]; constructor| |left; reflexivity].
+      cbn. rewrite Hl. split; reflexivity.
+    + relnew Ht. rewrite Hl. cbn [s_thr set_dict]. rewrite (lset_same _ _ _ _ Ht). cbn [t_rem]. rewrite Hd. reflexivity.
+  - (* Release *)
+    assert (Hl : s_ldict st = Some t) by (apply Hcs; reflexivity).
+    unfold dict_rel in Hrel. rewrite Hl, Ht, <- Hrm in Hrel.
+    cbn [exec_step]. unfold holds. cbn [holder]. rewrite Hl. rewrite Nat.eqb_refl.
+    cbn [fst snd evs_of map dict_events replay]. split; [|reflexivity]. split.
+    + apply P1_step with (st := st) (ts := ts); [exact HP|exact Ht|reflexivity|cbn [t_rem]; constructor| |right; right; split; [exact Hl|reflexivity]].
+      cbn [t_rem]. rewrite in_cs_dprog. cbn. split; discriminate.
+    + relnew Ht. exact Hrel.
+Qed.
+
+Lemma dict_events_app x y : dict_events (x ++ y) = dict_events x ++ dict_events y.
+Proof.
+  induction x as [|[t e] x IH]; [reflexivity|]. cbn [app dict_events]. destruct e; cbn; rewrite ?IH; reflexivity.
+Qed.
+
+Lemma replay_app d l1 l2 :
+  replay d (l1 ++ l2) =
+  (fst (replay (fst (replay d l1)) l2), snd (replay d l1) && snd (replay (fst (replay d l1)) l2)).
+Proof.
+  revert d; induction l1 as [|[[t o] r] l1 IH]; intro d; cbn [app replay fst snd].
+  - destruct (replay d l2); reflexivity.
+  - rewrite IH. cbn [fst snd]. rewrite andb_assoc. reflexivity.
+Qed.
+
+Lemma run_dinv sched : forall st a,
+  dinv st a ->
+  dinv (fst (run sched st)) (fst (replay a (dict_events (snd (run sched st))))) /\
+  snd (replay a (dict_events (snd (run sched st)))) = true.
+Proof.
+  induction sched as [|t s IH]; intros st a Hinv; cbn [run fst snd].
+  - cbn. auto.
+  - destruct (exec_dinv st a t Hinv) as [H1 H2]. rewrite dict_events_app, replay_app. cbn [fst snd].
+    fold (evs_of t (snd (exec st t))). destruct (IH _ _ H1) as [H3 H4]. split; [exact H3|].
+    rewrite H2, H4. reflexivity.
+Qed.
+
+(* the calls of thread u among the completed ones, in order *)
+Definition proj (u : tid) (l : list (tid * dop * dret)) : list dop :=
+  map (fun x => snd (fst x)) (filter (fun x => Nat.eqb (fst (fst x)) u) l).
+
+Lemma proj_app u x y : proj u (x ++ y) = proj u x ++ proj u y.
+Proof. unfold proj. rewrite filter_app, map_app. reflexivity. Qed.
+
+Lemma proj_other u t l : u <> t -> proj u (evs_of t l) = [].
+Proof.
+  intro Hne. unfold evs_of. induction l as [|e l IH]; [reflexivity|]. cbn [map dict_events].
+  destruct e; cbn; try exact IH. unfold proj in *. cbn.
+  destruct (Nat.eqb t u) eqn:E; [apply Nat.eqb_eq in E; congruence|]. exact IH.
+Qed.
+
+Definition skip_free (p : list step) : Prop := forall b n, ~ In (SkipIf b n) p.
+
+Lemma dphase_skip_free p : dphase p -> skip_free p.
+Proof.
+  assert (Hd : forall ops, skip_free (dprog ops)).
+  { induction ops as [|[s|s] ops IH]; intros b n Hin; [destruct Hin| |].
+    - rewrite dprog_cons_ins in Hin. cbn in Hin. repeat (destruct Hin as [Hin|Hin]; [discriminate|]). apply (IH b n Hin).
+    - rewrite dprog_cons_rem in Hin. cbn in Hin. repeat (destruct Hin as [Hin|Hin]; [discriminate|]). apply (IH b n Hin). }
+  intros H b n Hin. destruct H; cbn in Hin; repeat (destruct Hin as [Hin|Hin]; [discriminate|]); apply (Hd _ b n Hin).
+Qed.
+
+Lemma thread_rem_upd st1 t ts' x :
+  nth_error (s_thr st1) t = Some x -> thread_rem (set_thr st1 (lset (s_thr st1) t ts')) t = t_rem ts'.
+Proof. intro H. unfold thread_rem. cbn [s_thr set_thr]. rewrite (lset_same _ _ _ _ H). reflexivity. Qed.
+
+Lemma thread_rem_upd_other st1 st t u ts' :
+  s_thr st1 = s_thr st -> u <> t -> thread_rem (set_thr st1 (lset (s_thr st1) t ts')) u = thread_rem st u.
+Proof. intros H Hne. unfold thread_rem. cbn [s_thr set_thr]. rewrite lset_other by auto. rewrite H. reflexivity. Qed.
+
+Lemma exec_ops st t u :
+  (forall ts, nth_error (s_thr st) t = Some ts -> skip_free (t_rem ts)) ->
+  proj u (evs_of t (snd (exec st t))) ++ ops_of (thread_rem (fst (exec st t)) u) = ops_of (thread_rem st u).
+Proof.
+  intro Hsf. unfold exec. destruct (nth_error (s_thr st) t) as [ts|] eqn:Ht; [|reflexivity].
+  destruct (t_rem ts) as [|stp rest] eqn:Hrem; [reflexivity|].
+  assert (Hns : forall b n, stp <> SkipIf b n).
+  { intros b n ->. apply (Hsf ts eq_refl b n). rewrite Hrem. left; reflexivity. }
+  destruct (Nat.eq_dec u t) as [->|Hne].
+  - assert (Hold : ops_of (thread_rem st t) = ops_of (stp :: rest)) by (unfold thread_rem; rewrite Ht, Hrem; reflexivity).
+    rewrite Hold.
+    destruct stp; cbn [exec_step];
+      try (destruct (holder st m) eqn:Hh); try (destruct (holds st t m));
+      try (destruct (negb (s_dict st s =? 0))); try (destruct (flag (t_reg ts)));
+      try (destruct (find_rec (s_erecs st) t 0));
+      try (match goal with |- context [err_resize ?x1 ?x2 ?x3 ?x4] => destruct (err_resize x1 x2 x3 x4) as [[g sz] md] end);
+      try (destruct (t_reg ts) as [|b0|[p0|]|b0]); try (destruct (p_gen p0 =? s_egen st));
+      try (destruct (nth_error (s_erecs st) (p_idx p0)));
+      cbn [fst snd];
+      try (exfalso; eapply Hns; reflexivity);
+      try (rewrite Hold; reflexivity);
+      try (erewrite thread_rem_upd; [unfold evs_of, proj; cbn; rewrite ?Nat.eqb_refl; reflexivity|
+                                     cbn [s_thr set_dict set_err set_canon set_hash]; try (destruct m; cbn [s_thr set_holder]); exact Ht]).
+  - rewrite (proj_other u t _ Hne). cbn [app]. f_equal.
+    destruct stp; cbn [exec_step];
+      try (destruct (holder st m) eqn:Hh); try (destruct (holds st t m));
+      try (destruct (negb (s_dict st s =? 0))); try (destruct (flag (t_reg ts)));
+      try (destruct (find_rec (s_erecs st) t 0));
+      try (match goal with |- context [err_resize ?x1 ?x2 ?x3 ?x4] => destruct (err_resize x1 x2 x3 x4) as [[g sz] md] end);
+      try (destruct (t_reg ts) as [|b0|[p0|]|b0]); try (destruct (p_gen p0 =? s_egen st));
+      try (destruct (nth_error (s_erecs st) (p_idx p0)));
+      cbn [fst snd]; try reflexivity;
+      try (apply thread_rem_upd_other; [try reflexivity; try apply s_thr_set_holder|exact Hne]).
+Qed.
+
+Lemma ops_of_dprog ops : ops_of (dprog ops) = ops.
+Proof.
+  induction ops as [|[s|s] ops IH]; [reflexivity| |].
+  - rewrite dprog_cons_ins. cbn [ops_of]. rewrite IH. reflexivity.
+  - rewrite dprog_cons_rem. cbn [ops_of]. rewrite IH. reflexivity.
+Qed.
+
+Lemma dinv_init d0 opss : dinv (init d0 (map dprog opss)) d0.
+Proof.
+  split.
+  - intros t ts Ht. destruct (init_thread _ _ _ _ Ht) as [p [Hp ->]]. cbn [t_rem].
+    rewrite nth_error_map in Hp. destruct (nth_error opss t) as [ops|]; [|discriminate]. inversion Hp; subst p.
+    split; [constructor|]. rewrite in_cs_dprog. cbn. split; discriminate.
+  - reflexivity.
+Qed.
+
+Lemma run_ops sched : forall st a,
+  dinv st a -> forall u,
+  proj u (dict_events (snd (run sched st))) ++ ops_of (thread_rem (fst (run sched st)) u) = ops_of (thread_rem st u).
+Proof.
+  induction sched as [|t s IH]; intros st a Hinv u; cbn [run fst snd]; [reflexivity|].
+  rewrite dict_events_app, proj_app. fold (evs_of t (snd (exec st t))).
+  destruct (exec_dinv st a t Hinv) as [H1 _]. rewrite <- app_assoc. rewrite (IH _ _ H1 u).
+  apply exec_ops. intros ts Ht. apply dphase_skip_free. destruct Hinv as [HP _]. apply (HP t ts Ht).
+Qed.
+
+Theorem dict_linearizable d0 opss sched :
+  let r := run sched (init d0 (map dprog opss)) in
+  let lin := dict_events (snd r) in
+  (forall t, proj t lin ++ ops_of (thread_rem (fst r) t) = nth t opss []) /\
+  snd (replay d0 lin) = true /\
+  (s_ldict (fst r) = None -> s_dict (fst r) = fst (replay d0 lin)).
+Proof.
+  intros r lin. pose proof (dinv_init d0 opss) as H0.
+  destruct (run_dinv sched _ _ H0) as [[HP Hrel] Hok]. fold r in HP, Hrel, Hok. fold lin in Hrel, Hok.
+  split; [|split; [exact Hok|]].
+  - intro t. unfold lin, r. rewrite (run_ops sched _ _ H0 t).
+    unfold thread_rem. cbn [init s_thr]. rewrite nth_error_map.
+    destruct (nth_error (map dprog opss) t) as [p|] eqn:E; cbn.
+    + rewrite nth_error_map in E. destruct (nth_error opss t) as [ops|] eqn:E2; [|discriminate]. inversion E; subst p.
+      rewrite ops_of_dprog. symmetry. apply nth_error_nth. exact E2.
+    + rewrite nth_error_map in E. destruct (nth_error opss t) as [ops|] eqn:E2; [discriminate|].
+      apply nth_error_None in E2. rewrite nth_overflow by exact E2. reflexivity.
+  - intro Hl. unfold dict_rel in Hrel. rewrite Hl in Hrel. exact Hrel.
+Qed.
+
+(* ---------------------------------------------------------------------------------------------------------------
+   dictionary: reference counts of serial executions (order independent)
+   --------------------------------------------------------------------------------------------------------------- *)
+Definition expect (l : list (tid * dop)) : list (tid * dop * dret) :=
+  map (fun x => (fst x, snd x, match snd x with DIns s => RStr s | DRem _ => RCode 0 end)) l.
+
+Lemma take_tok_refs k own own' x :
+  take_tok k own = Some own' ->
+  held_refs own x = held_refs own' x + (if beq_bytes x (snd k) then 1 else 0).
+Proof.
+  revert own'; induction own as [|y own IH]; intros own' H; cbn in H; [discriminate|].
+  destruct (tok_eqb y k) eqn:E.
+  - inversion H; subst own'. unfold tok_eqb in E. apply andb_true_iff in E. destruct E as [_ E].
+    apply beq_bytes_eq in E. unfold held_refs. cbn [filter]. rewrite E.
+    destruct (beq_bytes (snd k) x) eqn:E2.
+    + apply beq_bytes_eq in E2. subst x. rewrite beq_bytes_refl. cbn [length]. lia.
+    + destruct (beq_bytes x (snd k)) eqn:E3; [apply beq_bytes_eq in E3; subst x; rewrite beq_bytes_refl in E2; discriminate|]. lia.
+  - destruct (take_tok k own) as [r|] eqn:E2; [|discriminate]. inversion H; subst own'.
+    specialize (IH r eq_refl). unfold held_refs in *. cbn [filter]. destruct (beq_bytes (snd y) x); cbn [length]; lia.
+Qed.
+
+Theorem dict_refs_balance : forall l (b d : dictT) own own',
+  owned l own = Some own' -> (forall x, d x = b x + held_refs own x) ->
+  snd (replay d (expect l)) = true /\ forall x, fst (replay d (expect l)) x = b x + held_refs own' x.
+Proof.
+  induction l as [|[t o] l IH]; intros b d own own' Ho Hd.
+  - cbn in Ho. inversion Ho; subst own'. cbn. auto.
+  - destruct o as [s|s]; cbn [owned] in Ho; cbn [expect map replay fst snd atomic_dop].
+    + assert (Hd' : forall x, dupd d s (d s + 1) x = b x + held_refs ((t, s) :: own) x).
+      { intro x. unfold dupd, held_refs. cbn [filter snd].
+        destruct (beq_bytes x s) eqn:E.
+        - apply beq_bytes_eq in E. subst x. rewrite beq_bytes_refl. cbn [length]. rewrite Hd. unfold held_refs. lia.
+        - destruct (beq_bytes s x) eqn:E2; [apply beq_bytes_eq in E2; subst x; rewrite beq_bytes_refl in E; discriminate|].
+          rewrite Hd. reflexivity. }
+      destruct (IH b _ _ _ Ho Hd') as [H1 H2]. fold (expect l). cbn [dret_eqb]. rewrite beq_bytes_refl. cbn [andb].
+      split; [exact H1|exact H2].
+    + destruct (take_tok (t, s) own) as [own1|] eqn:Et; [|discriminate].
+      pose proof (take_tok_refs _ _ _ s Et) as Hs. cbn [snd] in Hs. rewrite beq_bytes_refl in Hs.
+      assert (Hpos : d s =? 0 = false). { apply N.eqb_neq. rewrite Hd. lia. }
+      rewrite Hpos. cbn [fst snd dret_eqb]. rewrite N.eqb_refl. cbn [andb].
+      assert (Hd' : forall x, dupd d s (d s - 1) x = b x + held_refs own1 x).
+      { intro x. unfold dupd. pose proof (take_tok_refs _ _ _ x Et) as Hx. cbn [snd] in Hx.
+        destruct (beq_bytes x s) eqn:E.
+        - apply beq_bytes_eq in E. subst x. rewrite Hd. lia.
+        - rewrite Hd. lia. }
+      fold (expect l). apply (IH b _ _ _ Ho Hd').
+Qed.
+
+Lemma replay_fst_expect l : forall d, fst (replay d l) = fst (replay d (expect (map fst l))).
+Proof.
+  induction l as [|[[t o] r] l IH]; intro d; [reflexivity|]. cbn [map expect replay fst snd]. fold (expect (map fst l)).
+  apply IH.
+Qed.
+
+Lemma dret_eqb_eq x y : dret_eqb x y = true -> x = y.
+Proof.
+  destruct x, y; cbn; intro H; try discriminate.
+  - apply beq_bytes_eq in H. congruence.
+  - apply N.eqb_eq in H. congruence.
+Qed.
+
+Lemma replay_rets_unique : forall l1 l2 d,
+  map fst l1 = map fst l2 -> snd (replay d l1) = true -> snd (replay d l2) = true -> l1 = l2.
+Proof.
+  induction l1 as [|[[t1 o1] r1] l1 IH]; intros [|[[t2 o2] r2] l2] d Hm H1 H2; try discriminate; [reflexivity|].
+  cbn [map fst] in Hm. inversion Hm as [[Ht Ho H0]]; subst. cbn [replay fst snd] in H1, H2.
+  apply andb_true_iff in H1. destruct H1 as [Ha1 Hb1]. apply andb_true_iff in H2. destruct H2 as [Ha2 Hb2].
+  apply dret_eqb_eq in Ha1. apply dret_eqb_eq in Ha2. subst r1 r2. f_equal. apply (IH l2 _ H0 Hb1 Hb2).
+Qed.
+
+Lemma expect_map_fst l : map fst (expect l) = l.
+Proof. induction l as [|[t o] l IH]; [reflexivity|]. cbn. f_equal. exact IH. Qed.
+
+(* every schedule of lock-bracketed calls in which each thread only gives back references it holds: every call
+   succeeds and the final reference counts are the initial ones plus the references still held *)
+Theorem dict_final_refcounts d0 opss sched own :
+  let r := run sched (init d0 (map dprog opss)) in
+  let lin := dict_events (snd r) in
+  s_ldict (fst r) = None -> owned (map fst lin) [] = Some own ->
+  lin = expect (map fst lin) /\ forall x, s_dict (fst r) x = d0 x + held_refs own x.
+Proof.
+  intros r lin Hl Ho. destruct (dict_linearizable d0 opss sched) as [_ [Hok Hfin]]. fold r in Hok, Hfin. fold lin in Hok, Hfin.
+  destruct (dict_refs_balance (map fst lin) d0 d0 [] own Ho) as [H1 H2].
+  { intro x. unfold held_refs. cbn. lia. }
+  split.
+  - apply (replay_rets_unique _ _ d0); [rewrite expect_map_fst; reflexivity|exact Hok|exact H1].
+  - intro x. rewrite (Hfin Hl). rewrite replay_fst_expect. apply H2.
+Qed.
